@@ -115,7 +115,12 @@ def replay_ops(ctx: Ctx, ops, conc, origin, expect_layouts=None, deep=True):
                                   {"ops": ops[:k + 1], "conc": conc, "keys": d.keys})
                     return False
                 if "drain" in o:
-                    dr = d.drain_copy()
+                    try:
+                        dr = d.drain_copy()
+                    except Exception as ex:
+                        ctx.violation(f"exception|drain|{type(ex).__name__}", f"{origin}: replaying the history on a fresh list raised {type(ex).__name__}: {ex} after step {k} ({conc})",
+                                      {"ops": ops[:k + 1], "conc": conc})
+                        return False
                     if dr != list(o["drain"]):
                         ctx.violation("drain", f"{origin}: after step {k} {a}: replayed copy drains {dr}, specification {list(o['drain'])} ({conc})",
                                       {"ops": ops[:k + 1], "conc": conc, "keys": d.keys})
@@ -279,7 +284,11 @@ def c_to_s(ctx: Ctx):
     n = ctx.pick(1200, 12000)
     trs = []
     for i in range(n):
-        trs.append(random_history(ctx.rng, CONCS[i % len(CONCS)], nops=ctx.rng.choice([25, 40, 60])))
+        try:
+            trs.append(random_history(ctx.rng, CONCS[i % len(CONCS)], nops=ctx.rng.choice([25, 40, 60])))
+        except Exception as ex:
+            ctx.violation(f"exception|history|{type(ex).__name__}", f"random history {i} ({CONCS[i % len(CONCS)]} times): an event-list call raised {type(ex).__name__}: {ex}", None)
+            trs.append([])
     rej, st = traces.validate("TraceEventList", "TraceEventList.cfg", trs, timeout=1500)
     ctx.states += st["distinct"]; ctx.transitions += st["generated"]
     ctx.tlc_runs.append({"model": "TraceEventList (batch)", **{k: (round(v, 2) if isinstance(v, float) else v) for k, v in st.items()}})
